@@ -13,7 +13,7 @@ import itertools
 import z3
 
 from . import values as vm
-from .values import (BoolV, ClsV, Conc, FuncV, ModV, Ref, Sym, TupV, V, Val)
+from .values import (BoolV, ClsV, Conc, FuncV, ModV, Ref, StrCat, Sym, TupV, V, Val)
 
 
 class OutOfReach(Exception):
@@ -231,6 +231,12 @@ class Interp:
             return c
         if isinstance(v, ModV):
             return U.cls_const("mod_" + v.name)
+        if isinstance(v, StrCat):
+            if v._term is None:
+                c = U.fresh("text")
+                U.axioms.append(vm.ty(c) == vm.TAG["str"])
+                v._term = c
+            return v._term
         raise OutOfReach("term of %r" % (v,))
 
     def truth(self, v):
@@ -248,6 +254,10 @@ class Interp:
             return len(v.items) > 0
         if isinstance(v, (ClsV, FuncV, ModV)):
             return True
+        if isinstance(v, StrCat):
+            if any(isinstance(p, str) and p for p in v.parts):
+                return True
+            raise OutOfReach("truth of structured text")
         if isinstance(v, Ref):
             return None  # needs state: handled by truth_in
         if isinstance(v, Sym):
